@@ -89,6 +89,28 @@ theorem dset_of_not_mem {k : κ} (v : β) {d : Dict κ β} (h : k ∉ keys d) : 
     simp only [keys_cons, List.mem_cons, not_or] at h
     simp only [dset, if_neg (fun (e : k' = k) => h.1 e.symm), ih h.2, List.cons_append]
 
+theorem dget_dset (k k' : κ) (v : β) (d : Dict κ β) :
+    dget k' (dset k v d) = if k' = k then some v else dget k' d := by
+  induction d with
+  | nil =>
+    by_cases h : k' = k
+    · subst h; simp [dset, dget]
+    · have h' : ¬ k = k' := fun e => h e.symm
+      simp [dset, dget, h, h']
+  | cons e d ih =>
+    obtain ⟨k₀, v₀⟩ := e
+    by_cases hk : k₀ = k
+    · subst hk
+      by_cases h : k' = k₀
+      · subst h; simp [dset, dget]
+      · have h' : ¬ k₀ = k' := fun e => h e.symm
+        simp [dset, dget, h, h']
+    · by_cases h0 : k₀ = k'
+      · subst h0
+        have : ¬ k₀ = k := hk
+        simp [dset, dget, hk]
+      · simp only [dset, if_neg hk, dget, if_neg h0, ih]
+
 theorem mem_keys_dset {k k' : κ} {v : β} {d : Dict κ β} : k' ∈ keys (dset k v d) ↔ k' = k ∨ k' ∈ keys d := by
   induction d with
   | nil => simp [dset, keys]
